@@ -92,6 +92,12 @@ inductive Item where
   | dict (items : List (String × Item))
 deriving Repr
 
+/-- a leaf that `torch.zeros((0, *shape), dtype=…)` can be built from: a tensor or a Python scalar -/
+def Item.isLeaf : Item → Bool
+  | .tensor _ _ => true
+  | .scalar _ => true
+  | _ => false
+
 /-- a collated batch -/
 inductive Batch where
   | tensor (shape : List Nat) (dtype : DT)
@@ -138,10 +144,10 @@ def emptyCollateAsCoded (item : Item) : Except CErr Batch :=
 /-- what `default_collate` would return for a batch of such items with the batch dimension set to
 zero: the item's structure, every leaf a `(0, *shape)` tensor of the leaf's dtype -/
 def emptyCollateSpec : Item → Batch
-  | .tensor s d => .tensor (0 :: s) d
+  | .tensor s d => .tensor (0 :: s) d.torch
   | .scalar d => .tensor [0] d.torch
   | .str => .strs
-  | .ndarray s d => .tensor (0 :: s) d
+  | .ndarray s d => .tensor (0 :: s) d.torch
   | .tuple xs => .list (xs.attach.map (fun ⟨x, _⟩ => emptyCollateSpec x))
   | .dict kvs => .dict (kvs.attach.map (fun ⟨kv, _⟩ => (kv.1, emptyCollateSpec kv.2)))
 termination_by i => sizeOf i
